@@ -1,22 +1,34 @@
 #!/usr/bin/env python3
-"""mut.py <Cxx[,Cyy]> <repo-file> <old> <new> [tier] — apply a textual mutation to /repo, check that it
-compiles and that the package tests still pass, run the checks, revert.  For monitor validation only."""
-import subprocess, sys, os
+"""mut.py <Cxx[,Cyy]> <repo-file> <old> <new> [tier] — apply a textual mutation to a private copy of /repo
+(HEAD + working tree changes of tracked files), check that it compiles and that the test suite still passes,
+run the checks against the copy (VERIF_REPO), remove the copy.  For monitor validation only; /repo is never touched.
+With VERIF_REPO set, mutates that copy in place instead (and reverts)."""
+import subprocess, sys, os, tempfile, shutil
 ids, f, old, new = sys.argv[1].split(","), sys.argv[2], sys.argv[3], sys.argv[4]
 tier = sys.argv[5] if len(sys.argv) > 5 else "quick"
-REPO = os.environ.get("VERIF_REPO", "/repo")
+own = None
+REPO = os.environ.get("VERIF_REPO")
+if not REPO:
+    own = tempfile.mkdtemp(prefix="verif-mutrepo-")
+    subprocess.run("git -C /repo ls-files -z | (cd /repo && xargs -0 tar -cf - ) | tar -xf - -C " + own, shell=True, check=True)
+    REPO = own
 p = os.path.join(REPO, f)
 s = open(p).read()
-if s.count(old) != 1:
-    print("MUT: pattern occurs", s.count(old), "times"); sys.exit(2)
-open(p, "w").write(s.replace(old, new))
 try:
-    env = dict(os.environ, GOFLAGS="-mod=mod", GOPROXY="off")
+    if s.count(old) != 1:
+        print("MUT: pattern occurs", s.count(old), "times"); sys.exit(2)
+    open(p, "w").write(s.replace(old, new))
+    env = dict(os.environ, GOFLAGS="-mod=mod", GOPROXY="off", VERIF_REPO=REPO)
     b = subprocess.run("go build ./... && go test -vet=off -count=1 ./... 2>&1 | grep -v '^ok\\|no test files' | head -5", shell=True, cwd=REPO, env=env, capture_output=True, text=True)
     print("MUT build/tests:", "clean" if not (b.stdout + b.stderr).strip() else (b.stdout + b.stderr))
     for i in ids:
-        c = subprocess.run(["/verif/check", i, tier], capture_output=True, text=True)
-        lines = [l for l in c.stdout.splitlines() if l.startswith(("VIOLATION", "OK", "INCONCLUSIVE", "KNOWN"))]
-        print("MUT", i, "exit", c.returncode, "|", " / ".join(l[:200] for l in lines[:3]))
+        try:
+            c = subprocess.run(["/verif/check", i, tier], capture_output=True, text=True, env=env, timeout=int(os.environ.get("MUT_TIMEOUT", "900")))
+            lines = [l for l in c.stdout.splitlines() if l.startswith(("VIOLATION", "OK", "INCONCLUSIVE", "KNOWN"))]
+            print("MUT", i, "exit", c.returncode, "|", " / ".join(l[:220] for l in lines[:3]))
+        except subprocess.TimeoutExpired:
+            print("MUT", i, "TIMEOUT")
 finally:
     open(p, "w").write(s)
+    if own:
+        shutil.rmtree(own, ignore_errors=True)
